@@ -57,6 +57,10 @@ def _depth(tier):
 
 # ------------------------------------------------------------------ the model
 
+class EditLost(Exception):
+    """A supported edit is not reflected by the visible state right after it was made."""
+
+
 class World:
     def __init__(self, mesh):
         self.mesh = mesh
@@ -83,12 +87,17 @@ class Model:
         return U.make_mesh(self.spec)
 
     def roots(self):
-        return ["init_default", "init_bc_passed"]
+        return ["init_default", "init_bc_passed", "init_int"]
 
     def build(self, history):
         w = World(self.mesh())
         if history[0] == "init_default":
             w.slots[0] = pf.CellVariable(w.mesh, self.pat[0].copy())
+        elif history[0] == "init_int":      # integer-typed initial array (a count / label field)
+            bc = pf.BoundaryConditions(w.mesh)
+            if self.paxis is not None:          # ... on a periodic domain (BCs passed in)
+                getattr(bc, U.SIDES[self.paxis][0]).periodic = True
+            w.slots[0] = pf.CellVariable(w.mesh, np.arange(1, 1 + int(np.prod(self.dims)), dtype=np.int64).reshape(self.dims), bc)
         else:
             w.slots[0] = pf.CellVariable(w.mesh, self.pat[0].copy(), pf.BoundaryConditions(w.mesh))
         w.slots[0]._mc_seen = 0
@@ -256,10 +265,17 @@ class Model:
         elif p[0] == "val":
             if p[2] == "assign":
                 v.value = self.pat[1]
+                want = self.pat[1]
             elif p[2] == "index":
-                v.value[(0,) * self.d] = 9.0
+                want = np.array(v.value, dtype=float)
+                want[(0,) * self.d] = 9.5
+                v.value[(0,) * self.d] = 9.5
             else:
-                v.value += 1.0
+                want = np.array(v.value, dtype=float) + 1.25
+                v.value += 1.25
+            if not np.array_equal(np.asarray(v.value, dtype=float), want):
+                raise EditLost("after %s the interior values are %s, assigned %s"
+                               % (op, np.asarray(v.value).ravel()[:4].tolist(), np.asarray(want).ravel()[:4].tolist()))
         elif p[0] == "apply":
             v.apply_BCs()
         elif p[0] == "solve":
@@ -341,7 +357,7 @@ class Model:
             slots.append((bid, bool(v.BCsTerm_precalc), has_cache, cache_fresh, cache_digest, ghost_fresh,
                           bool(v._value.modified), bool(v.BCs.modified), self._bc_bytes(v.BCs),
                           bool(getattr(v, "_mc_cleared_by_other", False)),
-                          getattr(v, "_mc_seen", 0) < self._epoch(v.BCs)))
+                          getattr(v, "_mc_seen", 0) < self._epoch(v.BCs), np.asarray(v._value).dtype.str))
         a = tuple(slots)
         # slot symmetry: the menu is symmetric under renaming the slots
         if slots[1] is not None and slots[0] is not None:
@@ -544,7 +560,84 @@ def cases(tier):
     return [{"grid": s, "depth": _depth(tier)} for s in _grids(tier)]
 
 
+def _forms_case(spec):
+    """Every way a variable can be given its initial values (float / integer / bool arrays without and with ghost
+    cells, scalars; BCs defaulted, passed in, periodic) x every supported value edit: right after the edit the
+    visible interior values are the ones assigned, and a solve equals a fresh start from them."""
+    m = Model(spec)
+    F = []
+    n = 0
+    dims = m.dims
+    full = tuple(k + 2 for k in dims)
+    N = int(np.prod(dims))
+    inits = {"float": m.pat[0].copy(), "int64": np.arange(1, N + 1, dtype=np.int64).reshape(dims),
+             "int32": np.arange(1, N + 1, dtype=np.int32).reshape(dims), "bool": (np.arange(N).reshape(dims) % 2 == 0),
+             "int64_with_ghosts": np.arange(int(np.prod(full)), dtype=np.int64).reshape(full),
+             "bool_with_ghosts": (np.arange(int(np.prod(full))).reshape(full) % 3 == 0),
+             "python_int": 3, "numpy_int": np.int64(3), "python_bool": True, "size1_int_array": np.array([3])}
+    bcs = ["default", "passed", "periodic"] if m.paxis is not None else ["default", "passed"]
+    for iname, init in inits.items():
+        for bname in bcs:
+            for ename in ("assign", "index", "iadd", "update_value", "slice_half"):
+                mesh = m.mesh()
+                try:
+                    if bname == "default":
+                        v = pf.CellVariable(mesh, init.copy() if isinstance(init, np.ndarray) else init)
+                    else:
+                        bc = pf.BoundaryConditions(mesh)
+                        if bname == "periodic":
+                            getattr(bc, U.SIDES[m.paxis][0]).periodic = True
+                        v = pf.CellVariable(mesh, init.copy() if isinstance(init, np.ndarray) else init, bc)
+                    before = np.array(v.value, dtype=float)
+                    if ename == "assign":
+                        want = m.pat[1].copy()
+                        v.value = m.pat[1]
+                    elif ename == "index":
+                        want = before.copy()
+                        want[(0,) * m.d] = 9.5
+                        v.value[(0,) * m.d] = 9.5
+                    elif ename == "iadd":
+                        want = before + 1.25
+                        v.value += 1.25
+                    elif ename == "slice_half":
+                        want = before.copy()
+                        want[...] = before * 0.5 + 0.125
+                        v.value[...] = before * 0.5 + 0.125
+                    else:
+                        o = pf.CellVariable(mesh, m.pat[1].copy())
+                        want = m.pat[1].copy()
+                        v.update_value(o)
+                    n += 1
+                    got = np.asarray(v.value, dtype=float)
+                    ok = np.array_equal(got, want)
+                    if ok:
+                        w = World(mesh)
+                        ref = pf.CellVariable(mesh, want.copy(), m._fresh_bc(mesh, v.BCs))
+                        a = pf.solvePDE(v, m.terms(w, v))
+                        b = pf.solvePDE(ref, m.terms(w, ref))
+                        ok = m._same(a._value, b._value)
+                        msg = "the next solvePDE differs from a fresh start with the assigned values"
+                    else:
+                        msg = "the interior values are %s, assigned %s" % (got.ravel()[:4].tolist(), np.asarray(want).ravel()[:4].tolist())
+                    if not ok:
+                        F.append({"key": "C09:edit_lost:%s:%s" % (iname, ename),
+                                  "msg": "variable on %s initialised with %s (%s BCs), then %s: %s"
+                                         % (U.spec_id(spec), iname, bname, ename, msg), "detail": {"grid": U.spec_id(spec)}})
+                except Exception as e:  # noqa: BLE001
+                    if isinstance(e, ValueError) and "Radial periodic" in str(e):
+                        continue
+                    F.append({"key": "C09:edit_exception:%s:%s:%s" % (iname, ename, type(e).__name__),
+                              "msg": "variable on %s initialised with %s (%s BCs), then %s raises %s: %s"
+                                     % (U.spec_id(spec), iname, bname, ename, type(e).__name__, str(e)[:120]),
+                              "detail": {"grid": U.spec_id(spec)}})
+    return n, F
+
+
 def explore(tier):
+    for s in [U.spec(c, {1: (3,), 2: (2, 3), 3: (2, 1, 2)}[U.dim(c)], ("I",) * (U.dim(c) - 1) + ("U",), 1) for c in U.CLASSES]:
+        n, F = _forms_case(s)
+        yield ({"grid": s, "forms": True}, {"evals": n, "nontrivial": n, "states": n, "transitions": n, "findings": F,
+                                            "outcomes": {"forms:%s" % ("ok" if not F else "viol"): 1}})
     for gi, s in enumerate(_grids(tier)):
         m = Model(s)
         r = histbfs.bfs(m, _depth(tier))
@@ -580,6 +673,10 @@ def run_case(case):
     """Replay of one history from scratch (no explorer, no deepcopy for construction)."""
     m = Model(case["grid"])
     res = {"evals": 1, "nontrivial": 1, "findings": [], "outcomes": {}}
+    if case.get("forms"):
+        n, F = _forms_case(case["grid"])
+        res["findings"] = F
+        return res
     hist = case["history"]
     w = World(m.mesh())
     w = m.build(hist[:1])
